@@ -26,6 +26,7 @@ type tEvent struct {
 
 type tState struct {
 	T          *rpc.Transport
+	C          *rpc.Client // via_client: the callers go through a load-balancing Client over T
 	effConns   int
 	effIdle    int
 	keepAlive  time.Duration
@@ -131,6 +132,16 @@ func (w *World) RunTransportWorld() {
 		IdleConnTimeout:     ts.idleTO,
 	}
 	ts.T = t
+	if p.Params["via_client"] == 1 {
+		var addrs []string
+		for i := range p.Servers {
+			addrs = append(addrs, addrOf(i))
+		}
+		cl := rpc.NewClient(nil, addrs...)
+		cl.Transport = t
+		cl.Scheduling = rpc.Scheduling(p.Params["sched"])
+		ts.C = cl
+	}
 	// invariant at every dial: the new connection must fit under the limit
 	w.Net.OnPipe = func(pipe *Pipe) {
 		n := w.openTo(pipe.Addr)
@@ -194,7 +205,12 @@ func (w *World) RunTransportWorld() {
 	w.TearingDown = true
 	w.shutdown = true
 	w.shutdownQ.WakeAll()
-	err1 := t.Close()
+	var err1 error
+	if ts.C != nil {
+		err1 = ts.C.Close() // closes the Transport as well
+	} else {
+		err1 = t.Close()
+	}
 	ts.closedAt = simrt.Now()
 	ts.openAfterClose = w.openAll()
 	err2 := t.Close()
@@ -240,7 +256,12 @@ func (w *World) runTCaller(ci int) {
 		switch op.Kind {
 		case "call":
 			c, args, reply := mk("call")
-			err := t.Call(addr, c.Method, args, reply)
+			var err error
+			if ts.C != nil {
+				err = ts.C.Call(c.Method, args, reply)
+			} else {
+				err = t.Call(addr, c.Method, args, reply)
+			}
 			w.finishBlocking(c, err)
 		case "ctx":
 			c, args, reply := mk("ctx")
@@ -249,7 +270,12 @@ func (w *World) runTCaller(ci int) {
 			if op.Timeout > 0 {
 				ctx, cancel = context.WithTimeout(ctx, time.Duration(op.Timeout)*time.Microsecond)
 			}
-			err := t.CallWithContext(ctx, addr, c.Method, args, reply)
+			var err error
+			if ts.C != nil {
+				err = ts.C.CallWithContext(ctx, c.Method, args, reply)
+			} else {
+				err = t.CallWithContext(ctx, addr, c.Method, args, reply)
+			}
 			w.finishBlocking(c, err)
 			if cancel != nil {
 				cancel()
@@ -257,19 +283,32 @@ func (w *World) runTCaller(ci int) {
 		case "go":
 			c, args, reply := mk("go")
 			c.done = make(chan *rpc.Call, 4)
-			c.call = t.Go(addr, c.Method, args, reply, c.done)
+			if ts.C != nil {
+				c.call = ts.C.Go(c.Method, args, reply, c.done)
+			} else {
+				c.call = t.Go(addr, c.Method, args, reply, c.done)
+			}
 			outstanding = append(outstanding, c)
 		case "rt":
 			c, args, reply := mk("rt")
 			c.done = make(chan *rpc.Call, 4)
 			call := &rpc.Call{ServiceMethod: c.Method, Args: args, Reply: reply, Done: c.done}
 			c.call = call
-			t.RoundTrip(addr, call)
+			if ts.C != nil {
+				ts.C.RoundTrip(call)
+			} else {
+				t.RoundTrip(addr, call)
+			}
 			outstanding = append(outstanding, c)
 		case "ping":
 			c, _, _ := mk("ping")
 			c.Method = ""
-			err := t.Ping(addr)
+			var err error
+			if ts.C != nil {
+				err = ts.C.Ping()
+			} else {
+				err = t.Ping(addr)
+			}
 			w.finishBlocking(c, err)
 		case "wait":
 			for _, c := range outstanding {
@@ -326,7 +365,9 @@ func (w *World) tStreamOp(t *rpc.Transport, op *Op) {
 		if op.Bad == "method" {
 			method = "NoSuchStream.Run"
 		}
+		rec.CallBlocked = "open"
 		st, err := t.NewStream(addrOf(op.Addr), method)
+		rec.CallBlocked = ""
 		if err != nil {
 			rec.OpenErr = err.Error()
 			return
@@ -431,6 +472,12 @@ func genC13(r *simrt.Rand, tier string, idx uint64) *Plan {
 				if faulty && r.Chance(1, 2) {
 					op.Flags, op.Arg = FlSlow, uint32(1000*(1+r.Intn(1500)))
 				}
+				if op.Kind != "ping" && r.Chance(1, 7) {
+					// requests that fail on an error path of their own (unencodable argument: nothing is
+					// written; unknown method / undecodable body: the server answers with an error)
+					// while the connection stays healthy
+					op.Bad = []string{"encode", "encode", "method", "args"}[r.Intn(4)]
+				}
 				cp.Ops = append(cp.Ops, op)
 			}
 		}
@@ -450,6 +497,77 @@ func checkC13(w *World, run *simrt.Run) {
 	if w.Probes["dial"] > 0 && (mc != ts.effConns || mi != ts.effIdle) {
 		w.Violate("C13.normalisation", "limits-not-normalised", fmt.Sprintf("configured MaxConnsPerHost=%d MaxIdleConnsPerHost=%d, Transport holds %d/%d, documented rule gives %d/%d", w.P.Params["maxconns"], w.P.Params["maxidle"], mc, mi, ts.effConns, ts.effIdle))
 	}
+}
+
+// ------------------------------------------------------------------ C02 through Transport / Client
+
+// genC02T: the exactly-once oracle of C02 over calls that go through the pooling Transport, half of
+// the runs through a load-balancing Client on top of it; servers are killed and restarted and
+// connections cut while asynchronous calls are issued back to back, so refused dials, dead pooled
+// connections and replacement dials race with completions.
+func genC02T(r *simrt.Rand, tier string, idx uint64) *Plan {
+	p := genTBase(r, "c02t")
+	if idx%2 == 1 {
+		p.Params["via_client"] = 1
+		p.Params["sched"] = r.Intn(3)
+		if len(p.Servers) < 2 || r.Chance(1, 2) {
+			for len(p.Servers) < 2+r.Intn(2) {
+				p.Servers = append(p.Servers, ServerCfg{Poll: r.Chance(1, 4), Pipelining: r.Chance(1, 5)})
+			}
+		}
+	}
+	ns := len(p.Servers)
+	nc := 1 + r.Intn(4)
+	async := func(a int) Op {
+		op := genTCall(r, ns)
+		op.Kind = []string{"go", "rt", "go", "rt", "call", "ctx"}[r.Intn(6)]
+		op.Flags, op.Arg = 0, 0
+		if a >= 0 {
+			op.Addr = a
+		}
+		return op
+	}
+	for c := 0; c < nc; c++ {
+		cp := ClientPlan{}
+		n := 2 + r.Intn(8)
+		for i := 0; i < n; i++ {
+			switch r.Intn(10) {
+			case 0, 1:
+				cp.Ops = append(cp.Ops, Op{Kind: "sleep", N: 1000 * []int{1, 20, 90, 150, 400, 1200, 3000}[r.Intn(7)]})
+			case 2:
+				cp.Ops = append(cp.Ops, Op{Kind: "wait"})
+			case 3, 4:
+				// the server goes away; calls follow at once (the pooled connection is dead, the
+				// replacement dial is refused), then the server comes back
+				a := r.Intn(ns)
+				cp.Ops = append(cp.Ops, Op{Kind: "kill", Addr: a})
+				for k := 0; k < 1+r.Intn(5); k++ {
+					cp.Ops = append(cp.Ops, async(a))
+					if r.Chance(1, 3) {
+						cp.Ops = append(cp.Ops, Op{Kind: "sleep", N: 1000 * []int{1, 30, 120, 600}[r.Intn(4)]})
+					}
+				}
+				cp.Ops = append(cp.Ops, Op{Kind: "restart", Addr: a})
+			case 5:
+				cp.Ops = append(cp.Ops, Op{Kind: "cutall", Addr: r.Intn(ns)})
+			default:
+				op := async(-1)
+				if r.Chance(1, 4) {
+					op.Flags, op.Arg = FlSlow, uint32(1000*(1+r.Intn(800)))
+				}
+				if r.Chance(1, 10) {
+					op.Bad = []string{"encode", "method", "args"}[r.Intn(3)]
+				}
+				cp.Ops = append(cp.Ops, op)
+			}
+		}
+		p.Clients = append(p.Clients, cp)
+	}
+	return p
+}
+
+func checkC02T(w *World, run *simrt.Run) {
+	checkC02(w, run)
 }
 
 // ------------------------------------------------------------------ C14
@@ -882,6 +1000,7 @@ func checkC04T(w *World, run *simrt.Run) {
 }
 
 func init() {
+	register(&Scenario{Property: "C02", Name: "c02t", Gen: genC02T, Main: (*World).RunTransportWorld, Check: checkC02T})
 	register(&Scenario{Property: "C04", Name: "c04t", Gen: genC04T, Main: (*World).RunTransportWorld, Check: checkC04T})
 	register(&Scenario{Property: "C13", Name: "c13", Gen: genC13, Main: (*World).RunTransportWorld, Check: checkC13})
 	register(&Scenario{Property: "C14", Name: "c14", Gen: genC14, Main: (*World).RunTransportWorld, Check: checkC14})
